@@ -18,10 +18,12 @@ Sizes == {"empty", "short", "max"}
 (* self: the entry names the advertisement's own provider (which the IPNI rules allow to leave addresses and metadata out:
    what it leaves out stays out -- the stored value is the value, whatever a reader may substitute later)                  *)
 EpProviders == UNION {[1..n -> [addrs : 0..1, md : {"empty", "short"}, self : BOOLEAN]] : n \in 0..MaxList}
-Ads == [kind : {"ad"}, prev : BOOLEAN, addrs : 0..MaxList, ctx : Sizes, md : Sizes, rm : BOOLEAN, entries : {"noentries", "link"},
+(* prov: how the provider is spelled -- the field is a string: a peer ID in its usual base58 form, the same peer ID in its CID
+   form (bafz...), or something that is no peer ID at all; whatever was stored is what is read back                         *)
+Ads == [kind : {"ad"}, prov : {"b58", "cidform", "text"}, prev : BOOLEAN, addrs : 0..MaxList, ctx : Sizes, md : Sizes, rm : BOOLEAN, entries : {"noentries", "link"},
         ext : {"absent"} \cup {"present"}, ov : BOOLEAN, eps : EpProviders]
 WellFormedAd(a) == (a.ext = "absent" => (a.eps = <<>> /\ ~a.ov)) /\ ~(a.rm /\ a.ext = "present" /\ a.ov)
-Chunks == [kind : {"chunk"}, n : 0..3, mixed : BOOLEAN, next : BOOLEAN]
+Chunks == [kind : {"chunk"}, n : 0..3 \cup {16384}, mixed : BOOLEAN, next : BOOLEAN]      \* 16384: a full-size chunk (over 1 MiB in DAG-JSON)
 WellFormedChunk(c) == c.mixed => c.n >= 2
 Codecs == {"dag-json", "dag-cbor"}
 
@@ -33,7 +35,8 @@ vars == <<v, codec, stage>>
 Init == v \in {a \in Ads : WellFormedAd(a) /\ a.eps = <<>> /\ a.ext = "absent"} /\ codec \in Codecs /\ stage = 0
 PickAd == /\ stage = 0 /\ stage' = 1 /\ UNCHANGED codec
           /\ \/ v' = v
-             \/ \E e \in EpProviders, o \in BOOLEAN : v' = [v EXCEPT !.ext = "present", !.eps = e, !.ov = o] /\ WellFormedAd(v')
+             \/ /\ v.prov = "b58"          \* the extended-provider shapes are enumerated for the usual spelling of the provider
+                /\ \E e \in EpProviders, o \in BOOLEAN : v' = [v EXCEPT !.ext = "present", !.eps = e, !.ov = o] /\ WellFormedAd(v')
 Next == PickAd
 Spec == Init /\ [][Next]_vars
 Complete == stage = 1
